@@ -15,5 +15,5 @@ func main() {
 			c.Outcome("skipped")
 		}})
 	}
-	e1cases.MainWith("C02", optDomains)
+	e1cases.MainWith("C02", append(optDomains, foreignDomain()))
 }
